@@ -60,7 +60,7 @@ pub fn check(step: &Step, model: &Model, cfg: &Cfg) -> Vec<Finding> {
                     }
                 }
                 for c in &u.contracts {
-                    let other_source = step.chain.contracts.contains(c)
+                    let other_source = step.truth.contracts.contains(c)
                         || step
                             .after
                             .txs
@@ -117,7 +117,7 @@ pub fn check(step: &Step, model: &Model, cfg: &Cfg) -> Vec<Finding> {
                     format!(
                         "preconfirmation of {} for height {height} <= canonical tip {} changed the pool: ids {:?} -> {:?}, status events {}, follow-up inserts {}",
                         short_id(id),
-                        step.chain.height,
+                        step.truth.height,
                         step.before.ids().iter().map(short_id).collect::<Vec<_>>(),
                         step.after.ids().iter().map(short_id).collect::<Vec<_>>(),
                         step.sink.len(),
@@ -134,7 +134,7 @@ pub fn check(step: &Step, model: &Model, cfg: &Cfg) -> Vec<Finding> {
             {
                 if e.is_duplicate_tx()
                     && !step.before.contains(&info.id)
-                    && !step.chain.txs.contains(&info.id)
+                    && !step.truth.txs.contains(&info.id)
                     && !step
                         .before
                         .txs
@@ -151,13 +151,13 @@ pub fn check(step: &Step, model: &Model, cfg: &Cfg) -> Vec<Finding> {
                 }
                 let spent = match e {
                     PoolError::UtxoInputWasAlreadySpent(u) => {
-                        (step.chain.coins.contains_key(u)
+                        (step.truth.coins.contains_key(u)
                             && model.handed_out_coin(u).is_none()
                             && info.coins.iter().any(|(v, _)| v == u))
                         .then(|| short_utxo(u))
                     }
                     PoolError::MessageInputWasAlreadySpent(n) => {
-                        (step.chain.messages.contains_key(n)
+                        (step.truth.messages.contains_key(n)
                             && model.handed_out_msg(n).is_none()
                             && info.msgs.iter().any(|m| &m.nonce == n))
                         .then(|| format!("message {}", hex::encode(&n.as_ref()[28..])))
